@@ -122,6 +122,23 @@ func (w *World) VoteAll(pid string, n int, ballot string) (*BlockResult, error) 
 	return w.Exec(txs...)
 }
 
+// Approve lets every genesis admin vote "approve" (votes after the conclusion are refused, which
+// is fine) and checks that the proposal ended approved.
+func (w *World) Approve(pid string) error {
+	if _, err := w.VoteAll(pid, len(w.R.Cfg.Genesis.Admins), "approve"); err != nil {
+		return err
+	}
+	rc := w.R.Query(AddrGov, "GetProposal", pb.String(pid))
+	var p struct {
+		Status string `json:"status"`
+	}
+	json.Unmarshal(rc.Ret, &p)
+	if p.Status != "approve" {
+		return fmt.Errorf("proposal %s not approved after all admins voted (status %q)", pid, p.Status)
+	}
+	return nil
+}
+
 func mustOK(rc *pb.Receipt, err error, what string) error {
 	if err != nil {
 		return fmt.Errorf("%s: %v", what, err)
@@ -140,17 +157,7 @@ func (w *World) RegisterAppchain(k *Key, chainID, chainType, ruleAddr string, tr
 	if err := mustOK(rc, err, "RegisterAppchain "+chainID); err != nil {
 		return err
 	}
-	pid := ProposalID(rc)
-	res, err := w.VoteAll(pid, w.Votes, "approve")
-	if err != nil {
-		return err
-	}
-	for _, r := range res.Receipts {
-		if r.Status != pb.Receipt_SUCCESS {
-			return fmt.Errorf("vote on %s failed: %s", pid, string(r.Ret))
-		}
-	}
-	return nil
+	return w.Approve(ProposalID(rc))
 }
 
 // RegisterService registers and approves a service of chainID (k = chain admin).
@@ -165,17 +172,7 @@ func (w *World) RegisterService(k *Key, chainID, svc string, ordered bool, black
 	if err := mustOK(rc, err, "RegisterService "+chainID+":"+svc); err != nil {
 		return err
 	}
-	pid := ProposalID(rc)
-	res, err := w.VoteAll(pid, w.Votes, "approve")
-	if err != nil {
-		return err
-	}
-	for _, r := range res.Receipts {
-		if r.Status != pb.Receipt_SUCCESS {
-			return fmt.Errorf("vote on %s failed: %s", pid, string(r.Ret))
-		}
-	}
-	return nil
+	return w.Approve(ProposalID(rc))
 }
 
 // FullID is the full service id on this hub.
